@@ -255,24 +255,18 @@ theorem lits_last {segs : List Seg} (hwf : segsWf false segs = true) (hl : allLi
 /-! ### the type check of `hard_match` is the one of `rtosc_match` -/
 
 theorem args_types {ts : List Bytes} (hne : ts ≠ []) (hch : ∀ a ∈ ts, ∀ c ∈ a, tagChar c = true)
-    {tags : Bytes} (ht : NulFree tags) (rest : Bytes)
-    (hfit : ∀ a ∈ ts, a.length ≤ tags.length + 1 + rest.length) :
+    {tags : Bytes} (ht : NulFree tags) (rest : Bytes) :
     args (renderTypeAlts ts ++ [0]) (tags ++ 0 :: rest) = some (typesCode ts tags) := by
   obtain ⟨x, ts', rfl⟩ := List.exists_cons_of_ne_nil hne
-  have hargs := argsStart_types tags rest ht (x :: ts') hne hch
+  have hargs := argsStart_types_eq tags rest ht (x :: ts') hne hch
   simp only at hargs
   simp only [renderTypeAlts, List.cons_append, List.append_assoc, args_colon]
-  rcases hargs with h | ⟨_, z, hz, hzl⟩
-  · exact h
-  · have := hfit z hz
-    simp only [List.length_append, List.length_cons] at hzl
-    omega
+  exact hargs
 
 /-- **`hard_match` on a literal name** computes what `rtosc_match` computes -/
 theorem hardMatch_lit {p : Pat} (hwf : p.WF0) (hne : p.segs ≠ []) (hl : allLit p.segs = true)
     (pm : Matcher) (i : Nat) (hfix : pm.fixed[i]? = some (keyOf p)) (hspec : pm.argSpec[i]? = some (specOf p))
-    {a tags : Bytes} (k : Nat) (rest : Bytes) (ha : NulFree a) (ht : NulFree tags)
-    (hfit : ArgsInBounds p (tags.length + 1 + rest.length)) :
+    {a tags : Bytes} (k : Nat) (rest : Bytes) (ha : NulFree a) (ht : NulFree tags) :
     hardMatch pm i (a ++ 0 :: msgTail k tags rest) = some (matchB p a tags).isSome := by
   have hna : noAlts p.segs = true := by
     simp only [allLit, List.all_eq_true] at hl
@@ -351,7 +345,7 @@ theorem hardMatch_lit {p : Pat} (hwf : p.WF0) (hne : p.segs ≠ []) (hl : allLit
         have htw := wf0_types hwf
         simp only [hty, typesWf, Bool.and_eq_true, Bool.not_eq_eq_eq_not, Bool.not_true,
           List.isEmpty_eq_false_iff, List.all_eq_true] at htw
-        have hargs := args_types htw.1 htw.2 ht rest (fun z hz => hfit ts hty z hz)
+        have hargs := args_types htw.1 htw.2 ht rest
         have hcopy := (copies_agree (renderTypeAlts ts ++ [0]) (keyOf p ++ r ++ 0 :: msgTail k tags rest)).2
         obtain ⟨x, ts', rfl⟩ := List.exists_cons_of_ne_nil htw.1
         simp only [renderTypeAlts, List.cons_append] at hargs hcopy
@@ -541,7 +535,6 @@ theorem noSlash_of_noInner {p : Pat} (hwf : p.WF0) (hne : p.segs ≠ []) (hl : a
 theorem lookup_sound {p : Pat} (hwf : p.WF0) (hne : p.segs ≠ []) (hl : allLit p.segs = true)
     (pm : Matcher) (j : Nat) (hfix : pm.fixed[j]? = some (keyOf p)) (hspec : pm.argSpec[j]? = some (specOf p))
     {a tags : Bytes} (k : Nat) (rest : Bytes) (ha : NulFree a) (ht : NulFree tags)
-    (hfit : ArgsInBounds p (tags.length + 1 + rest.length))
     (hlk : lookup pm (a ++ 0 :: msgTail k tags rest) = some (.slot j true)) :
     (matchB p a tags).isSome = true := by
   unfold lookup at hlk
@@ -549,7 +542,7 @@ theorem lookup_sound {p : Pat} (hwf : p.WF0) (hne : p.segs ≠ []) (hl : allLit 
   split at hlk
   · cases hlk
   · next k' hk' =>
-    have hhm := fun hf hs => hardMatch_lit hwf hne hl pm k' hf hs k rest ha ht hfit
+    have hhm := fun hf hs => hardMatch_lit hwf hne hl pm k' hf hs k rest ha ht
     cases hh : hardMatch pm k' (a ++ 0 :: msgTail k tags rest) with
     | none => simp [hh] at hlk
     | some b =>
@@ -565,7 +558,6 @@ theorem lookup_complete {names : List Bytes} {pm : Matcher} (hok : HashOK names 
     {p : Pat} (hwf : p.WF0) (hne : p.segs ≠ []) (hna : noAlts p.segs = true)
     (i : Nat) (hi : names[i]? = some p.render)
     {a tags t : Bytes} (k : Nat) (rest : Bytes) (ha : NulFree a) (ht : NulFree tags)
-    (hfit : ArgsInBounds p (tags.length + 1 + rest.length))
     (hm : matchB p a tags = some t) :
     lookup pm (a ++ 0 :: msgTail k tags rest) = some (.slot i true) := by
   obtain ⟨hilt, hieq⟩ := List.getElem?_eq_some_iff.mp hi
@@ -584,7 +576,7 @@ theorem lookup_complete {names : List Bytes} {pm : Matcher} (hok : HashOK names 
   have hspec : pm.argSpec[i]? = some (specOf p) := by
     rw [hok.argSpec]
     simp [specsOf, hi, hsplit]
-  have hhm := hardMatch_lit hwf hne hl pm i hfix hspec k rest ha ht hfit
+  have hhm := hardMatch_lit hwf hne hl pm i hfix hspec k rest ha ht
   unfold lookup
   have hcl := compLen_le a
   have htk : (a ++ 0 :: msgTail k tags rest).take (compLen a) = keyOf p := by
